@@ -39,6 +39,30 @@ def contracts():
                'implies(receiver is not None, len(calls) == 1 and '
                'calls[0][1][0] == receiver and calls[0][1][1] == expr and '
                'result == calls[0][2])'], serves=('C04', 'C11'))
+    # def(name, body): the registered function hands the body exactly its
+    # own arguments - nothing of the CALL site (no context, no receiver)
+    # reaches the body, which was captured lexically by Lambda.convert
+    class callback:
+        is_factory = True
+
+        def __init__(self, arity):
+            self.arity = arity
+
+        def __call__(self, name, path):
+            return TFunc(self.arity).fresh(name)
+    for n in (0, 1, 2):
+        c('def_.<locals>.wrapper', name='system.def_.wrapper/%d' % n,
+          params=dict(args=tuple_of(TVal, n)), env=dict(func=callback(n)),
+          ensures=['len(calls) == 1 and calls[0][0] == func.name',
+                   'len(calls[0][1]) == %d' % n] + [
+                       'calls[0][1][%d] == args[%d]' % (k, k)
+                       for k in range(n)] + ['result == calls[0][2]'])
+    c('def_', params=dict(name=TStr, func=TFunc(1), context=TVal),
+      ensures=['result is context',
+               'len(calls) == 1 and calls[0][0] == "m.register_function" '
+               'and calls[0][1][0] == context',
+               # what is registered is the wrapper closed over THIS body
+               'calls[0][1][1].closure_vars["func"] is func'])
     c('send_context', params=dict(left=TVal, right=TFunc(1)),
       ensures=['len(calls) == 1 and calls[0][1][0] == left',
                'result == calls[0][2]'])
